@@ -262,7 +262,7 @@ def rule_every_stale_entry_rebuilt(ctx, rid, rr, rid_required=None):
     for c in adds:
         if c.args and norm(c.args[0]) == wname:
             conds = E.path_condition(mod, stmt_of(mod, c), lp)
-            ok = len(conds) == 1 and norm(conds[0][0]) in (wname, f"{wname} is not None") and conds[0][1]
+            ok = len(conds) == 1 and E.cond_set(conds, wname)
     ctx.ob(rid, f"{ap.short}/write-nodes-required", ok, loc(ap, lp), "every write node is added to the required set" if ok else
            "a write node may not be required: a stale value is not rebuilt", head(lp))
     # nothing else enters the required set (W3)
@@ -325,7 +325,7 @@ def rule_ancestor_closure(ctx, rid, rr):
     on = [p for p in pp.params if "output" in p][0]
     rq = [p for p in pp.params if "required" in p][0]
     adds = [c for c in pp.own_calls() if isinstance(c.func, ast.Attribute) and c.func.attr == "add" and norm(c.func.value) == rq and c.args and is_name(c.args[0], on)]
-    ok = len(adds) == 1 and any(norm(t) in (on, f"{on} is not None") and pol for t, pol in E.path_condition(pp.module, stmt_of(pp.module, adds[0]), pp.node))
+    ok = len(adds) == 1 and E.cond_set(E.path_condition(pp.module, stmt_of(pp.module, adds[0]), pp.node), on)
     ctx.ob(rid, f"{pp.short}/output-is-required", ok, loc(pp), "the output node is added to the seeds when present" if ok else
            "the output node is not among the closure seeds: its ancestors can be pruned")
     cl = [c for c in pp.own_calls() if f in m.callee_funcs(pp, c)]
